@@ -301,8 +301,6 @@ theorem deepScalar_pairs (k : Str) (kvs : List (Str × Str)) :
       have hne' : ¬ k' = k := fun e => hk e.symm
       simp [deepScalar, List.lookup, hne, hne', ih]
 
-def liftP (res : List (Str × PV)) : List (Str × DV) := res.map (fun kv => (kv.1, DV.p kv.2))
-
 theorem dvPrims_liftP (res : List (Str × PV)) : dvPrims (liftP res) = res := by
   induction res with
   | nil => rfl
